@@ -73,6 +73,48 @@ def spec_kind(s: str):
 
 
 _LOAD = yatiml.load_function()
+# typed positions: what is constructed where a scalar type is demanded must
+# agree with what the scalar resolves to
+_TYPED = [(bool, yatiml.load_function(bool)),
+          (float, yatiml.load_function(float)),
+          (int, yatiml.load_function(int)),
+          (str, yatiml.load_function(str))]
+_LIST_FLOAT = yatiml.load_function(List[float])
+
+
+def _same_scalar(a, b) -> bool:
+    if type(a) is not type(b):
+        return False
+    return (b != b) if a != a else a == b
+
+
+def _typed_agree(text: str, got) -> bool:
+    """load_function(T)(text) returns exactly what the untyped load returns
+    when that is a T, and raises RecognitionError otherwise."""
+    for t, load in _TYPED:
+        try:
+            v = load(text)
+        except yatiml.RecognitionError:
+            if type(got) is t:
+                note(typed=t.__name__, text=text,
+                     typed_load='RecognitionError', untyped=repr(got))
+                return False
+            continue
+        if type(got) is not t or not _same_scalar(v, got):
+            note(typed=t.__name__, text=text, typed_load=repr(v),
+                 untyped=repr(got))
+            return False
+    try:
+        v = _LIST_FLOAT('- ' + text)
+        ok = type(got) is float and _same_scalar(v[0], got)
+    except yatiml.RecognitionError:
+        ok = type(got) is not float
+    except yaml.YAMLError:
+        ok = True           # '- ' + text is no longer one plain scalar
+    if not ok:
+        note(text=text, list_of_float='disagrees', untyped=repr(got))
+    return ok
+
 
 
 def _single_plain_scalar(text: str) -> bool:
@@ -115,6 +157,8 @@ def plain_scalar_ok(text: str) -> bool:
              raised='%s: %s' % (type(e).__name__, e))
         return False
     note(text=text, resolves=tag, expected=want, loaded=repr(got))
+    if not _typed_agree(text, got):
+        return False
     if want is not None:
         kind, v = want
         if kind == 'bool':
@@ -159,7 +203,8 @@ _BOOLW = ['true', 'false', 'yes', 'no', 'on', 'off', 'y', 'n', 'null', '~',
           'trueish', 'truee', 'tru', 'ffalse', '.inf', '.nan', '-.inf',
           '+.nan', '.info', 'nan', 'inf', '1_000.5', '1:30.5', '1.2.3',
           '0x1F', '0o17', '1e5', '.5', '5.', '-', '+', '.', 'e5', '1e',
-          '2001-12-14', '2001-13-45', '=', '<<']
+          '2001-12-14', '2001-13-45', '=', '<<', '-inf', '+nan', 'infinity',
+          '1.\uff15', '\uff11.5', '3.\u0661\u0664', '1e\u0665', '.\u0966', '0.5']
 
 
 def _numeric(c) -> bool:
@@ -213,7 +258,7 @@ def _words(w, mask) -> bool:
 
 def words_cased(w: int, mask: int) -> bool:
     """
-    pre: 0 <= w < 38
+    pre: 0 <= w < 47
     pre: 0 <= mask < 16
     post: __return__
     """
@@ -222,7 +267,7 @@ def words_cased(w: int, mask: int) -> bool:
 
 def words_reach(w: int, mask: int) -> bool:
     """
-    pre: 0 <= w < 38
+    pre: 0 <= w < 47
     pre: 0 <= mask < 16
     post: __return__
     """
@@ -233,7 +278,8 @@ def words_reach(w: int, mask: int) -> bool:
 CONDITIONS = [
     {'fn': 'words_cased', 'slices': list(range(8)), 'quick': 100,
      'thorough': 200,
-     'bound': 'end to end: 38 words (boolean/null/float/int look-alikes) x '
+     'bound': 'end to end: 47 words (boolean/null/float/int look-alikes, '
+              'inf/nan without a point, non-ASCII decimal digits) x '
               'all 16 capitalisation masks of their first 4 characters'},
     {'fn': 'words_reach', 'slices': [0], 'quick': 60, 'thorough': 60,
      'expect': 'REFUTED', 'bound': 'reachability twin of words_cased'},
